@@ -22,7 +22,8 @@ EXPLANATION = (
     "through the enclosing try frames; every handler on the pre-commit path is classified re-raise / convert / "
     "swallow against a frozen allow-list."
     ' Also: (R6) on the AmbiguousCommitError route no handler/finally deletes, and no handler along the chain converts or swallows the ambiguous error; (R7) the conditional pointer PUT is not retried.'
-    ' (R8) who-may-delete census (shared with C09.R3).')
+    ' (R8) who-may-delete census (shared with C09.R3).'
+    ' (R10) a reused Transaction object starts empty: begin() resets _written_files / _inflight_markers (a non-deleting rollback keeps them on purpose) - shared with C01.R5.')
 NOT_DECIDED = ("the resulting table state after each fault; what S3 does with an errored PUT; double faults "
                "at run time")
 
@@ -103,6 +104,10 @@ def check(ctx: Ctx) -> None:
     # "including lock release": a release whose delete failed must still let the lock expire, or the table accepts no further commit
     from .c19 import release_always_lets_go
     release_always_lets_go(ctx, "C04.R9")
+    # a non-deleting rollback (ambiguous commit / interrupt) deliberately KEEPS _written_files: a reused Transaction object
+    # must start empty, or its next deleting rollback removes the files of the snapshot that did become durable
+    from .c01 import r5 as c01_r5
+    c01_r5(ctx, "C04.R10")
 
 
 # ----------------------------------------------------------------------- R1
